@@ -1,6 +1,7 @@
 package sim
 
 import (
+	"encoding/json"
 	"fmt"
 	"os"
 	"path/filepath"
@@ -43,12 +44,12 @@ type HistConfig struct {
 	// Featured: a motif that this history contains for sure (at a drawn position, after a first run), however
 	// the dice fall: "fail-after-edit" "clock" "type-error" "retry" "reuse" "protect" "linkout" "stale" "sumops"
 	// (simulations rotate through the motifs their configuration enables)
-	Featured string
-	Cgo      bool // one package gets a file that imports "C"
-	PReuse         float64 // two runs on one executor (loaded once): the second with other generators or a muted one
-	IllTyped       bool    // one package declares a type on an undefined identifier
-	PTypeError     float64 // motif: an edit, a type error planted in a package it imports, a run in which a generator panics, the repair, a run
-	TwoModules     bool    // a second local module (replace directive or go.work), imported by the main one; entrypoints in the main module
+	Featured   string
+	Cgo        bool    // one package gets a file that imports "C"
+	PReuse     float64 // two runs on one executor (loaded once): the second with other generators or a muted one
+	IllTyped   bool    // one package declares a type on an undefined identifier
+	PTypeError float64 // motif: an edit, a type error planted in a package it imports, a run in which a generator panics, the repair, a run
+	TwoModules bool    // a second local module (replace directive or go.work), imported by the main one; entrypoints in the main module
 }
 
 func schedOf(policy string, seed uint64) simrt.Schedule {
@@ -512,6 +513,9 @@ func DrawHistory(r *Rng, cfg HistConfig) (*Scenario, *histWorld) {
 			run2.Sched = drawSched(r)
 			ops = append(ops, Op{Kind: "run", Run: run0}, Op{Kind: "run", Run: &run1}, Op{Kind: "run", Run: &run2})
 			faulty++
+			// (the first call ran a generator that has stopped rendering: not one set of generators any more,
+			// and what a later cached run leaves is then no statement about the final state — T5)
+			sc.UniformGens = false
 		case hit("reuse", cfg.PReuse):
 			// a tool that loads once and calls Execute twice: after a failure, with fewer generators, or
 			// with a generator that has nothing to say any more
@@ -545,6 +549,9 @@ func DrawHistory(r *Rng, cfg HistConfig) (*Scenario, *histWorld) {
 				}
 			}
 			run2.Gens = gens2
+			if !sameGens(gens2, run1.Gens) {
+				sc.UniformGens = false // (see above: a silent or missing generator is another set of generators)
+			}
 			if r.P(0.4) {
 				// the other way round: the FIRST call has the silent (or missing) generator, the second one renders again
 				run1.Gens, run2.Gens = gens2, run1.Gens
@@ -852,4 +859,11 @@ func simWide(c *CheckCtx, i int, r *Rng) error {
 	c.Env.Stats.Add("probe/wide-module", 1)
 	c.Env.Stats.Fingerprint(fmt.Sprintf("wide/%d pkgs", n))
 	return nil
+}
+
+// sameGens: the two generator lists script the same behaviour (same names, same rules).
+func sameGens(a, b []proto.GenScript) bool {
+	ja, _ := json.Marshal(a)
+	jb, _ := json.Marshal(b)
+	return string(ja) == string(jb)
 }
